@@ -371,6 +371,45 @@ def run(rep, ctx):
     sets = {n: calls(rn, name=n) for n in ("SetVarNames", "SetConNames", "SetObjNames")}
     g1.check(all(len(v) == 1 for v in sets.values()) and len({frozenset(rn.cfg.facts_at(v[0])) for v in sets.values()}) == 1, "all-three-set", short_loc(rn.loc),
              "variable, constraint and objective names are set under one condition")
+    # the cvt:names modes, evaluated: 0 none; 1 names from the files (if any were read); 2 files, generic names for what is missing;
+    # 3 generic names only
+    from ..cfg import MiniInt as _MIn
+    badm = []
+    for m_ in (0, 1, 2, 3):
+        for nread_ in (0, 5):
+            ev_, box = [], {}
+
+            def atom(t_, n_, env_, m_=m_, nread_=nread_):
+                if n_["k"] in ("CXXMemberCallExpr", "CallExpr"):
+                    cn_ = (n_.get("callee") or "").split("::")[-1]
+                    if cn_ == "WantNames":
+                        return m_
+                    if cn_ == "ReadNames" and "NameProvider" in (n_.get("callee") or ""):
+                        ev_.append("read")
+                        return 0
+                    if cn_ == "number_read":
+                        return nread_ if "read" in ev_ else 0
+                    if cn_ in ("SetVarNames", "SetConNames", "SetObjNames"):
+                        ev_.append("set")
+                        return 0
+                    if cn_ in ("num_vars", "num_cons", "num_objs", "num_common_exprs", "num_algebraic_cons", "num_logical_cons"):
+                        return 1
+                return None
+            mi = _MIn(F, atom)
+            mi.select_only = True
+            box["mi"] = mi
+            try:
+                mi.call(rn, [("obj", None, None)])
+            except AnalysisBroken as e_:
+                if "without a return" not in str(e_):
+                    raise AnalysisBroken("C19.G1: ReadNames: %s" % e_)
+            want_read = m_ in (1, 2)
+            want_set = m_ >= 2 or (want_read and nread_ > 0)
+            if ("read" in ev_) != want_read or ("set" in ev_) != want_set:
+                badm.append("cvt:names=%d, %s: files %s, names %s" % (m_, "name files present" if nread_ else "no name files",
+                                                                      "read" if "read" in ev_ else "not read", "installed" if "set" in ev_ else "not installed"))
+    g1.check(not badm, "names-modes", short_loc(rn.loc), "modes 1 and 2 read the .col/.row files; names are installed in modes 2 and 3, and in mode 1 when the files gave any",
+             "%s - original items then carry generated names although AMPL's names were available (or no names at all)" % "; ".join(badm[:2]))
     nm = one("mp::NameProvider::name")
     rets = [r for r in nm.walk() if r["k"] == "ReturnStmt"]
     g_ok = False
